@@ -2503,6 +2503,24 @@ def _o78(chk, rc, final):
     chk.ob("O7.8", "the final metrics of BenchmarkComplete reach the coordinator on every path", ok, node if node is not None else h, "")
 
 
+def _store_hook_calls(met, f):
+    """(routine f of MetricsStore analysed together with the base-class helpers it calls, its calls of the store hooks): a store hook is a method the concrete (in-memory)
+    store implements - the role is decided by who implements the callee, not by its name."""
+    MS, IM = met.cls("MetricsStore"), met.cls("InMemoryMetricsStore")
+    impl = set(met.methods(IM))
+    fx = _Expand(met, MS, keep=impl).function(f)
+    return fx, [c for c in walk_body(fx) if isinstance(c, ast.Call) and is_self_attr(c.func) and c.func.attr in impl]
+
+
+def _record_hook(met):
+    """name of the per-record store hook: the one method of the concrete store that `MetricsStore._put_metric` hands the record it built to (None: not exactly one)."""
+    pm = met.methods(met.cls("MetricsStore")).get("_put_metric")
+    if pm is None:
+        raise AnchorMissing("MetricsStore._put_metric")
+    names = sorted({c.func.attr for c in _store_hook_calls(met, pm)[1]})
+    return names[0] if len(names) == 1 else None
+
+
 # ---- O7.7 / O7.10 ------------------------------------------------------------------------------------------------------------------------------------------
 def _o77(chk, met):
     IM, MS = met.cls("InMemoryMetricsStore"), met.cls("MetricsStore")
@@ -2554,15 +2572,27 @@ def _o77(chk, met):
     ba = met.methods(MS).get("bulk_add")
     if ba is None:
         raise AnchorMissing("MetricsStore.bulk_add")
-    addname = None
+    pm = met.methods(MS).get("_put_metric")
+    if pm is None:
+        raise AnchorMissing("MetricsStore._put_metric")
+    # the store hooks, by role (who implements them and what they are handed), not by name: the per-record hook is the method of the concrete store that `_put_metric`
+    # hands the record it built to; bulk_add may use the same hook per restored document or a hook of its own that takes the whole collection
+    px, pm_calls = _store_hook_calls(met, pm)
+    pm_hooks = sorted({c.func.attr for c in pm_calls})
+    addname = pm_hooks[0] if len(pm_hooks) == 1 else None
     if docs_attr is not None:
         try:
             restored, old = _rep(3, "restored"), _rep(1, "old")
-            it = _Interp([met])
-            it.model = lambda path, args, kwargs: list(restored) if path.endswith("loads") else args[0] if path.endswith("decompress") and args else NotImplemented
-            o = _O("store", IM, met, **{docs_attr: list(old)})
             memento = _O("memento")
-            it.call(_Fn(ba, met, o), [memento], {}, ba)
+
+            def restore(o):
+                it = _Interp([met])
+                it.model = lambda path, args, kwargs: list(restored) if path.endswith("loads") else args[0] if path.endswith("decompress") and args else NotImplemented
+                it.call(_Fn(ba, met, o), [memento], {}, ba)
+                return it
+
+            o = _O("store", IM, met, **{docs_attr: list(old)})
+            it = restore(o)
             _require_loops_modelled(it, [memento, restored])
             if not any(e.name == "loads" for e in it.effects):
                 chk.unknown("O7.7", "MetricsStore.bulk_add: how the hand-over is restored (…loads) is not recognised", ba)
@@ -2570,32 +2600,60 @@ def _o77(chk, met):
                 got = o.f.get(docs_attr)
                 ok = isinstance(got, list) and [getattr(x, "name", x) for x in got] == ["old0", "restored0", "restored1", "restored2"]
                 chk.ob("O7.7", "bulk_add adds every restored document", ok, ba, "" if ok else f"after restoring 3 documents into a store holding 1: {[getattr(x, 'name', x) for x in got] if isinstance(got, list) else got!r}")
-            # the per-document hook bulk_add uses, evaluated on its own
-            hooks = sorted({c.func.attr for c in ast.walk(_Expand(met, MS, keep=set(met.methods(IM))).function(ba)) if isinstance(c, ast.Call) and is_self_attr(c.func) and c.func.attr in met.methods(IM)})
-            addname = hooks[0] if len(hooks) == 1 else None
-            if addname is None:
-                chk.unknown("O7.7", f"the per-document hook bulk_add calls on the store: found {hooks}", ba)
+            # the hook(s) bulk_add uses, each evaluated on its own. What a hook is handed (one restored document per call / the restored collection) is observed by
+            # evaluating bulk_add on a store whose hooks are left unmodelled: their calls are then recorded with their arguments
+            ba_hooks = sorted({x.attr for x in ast.walk(_store_hook_calls(met, ba)[0]) if is_self_attr(x) and isinstance(x.ctx, ast.Load) and x.attr in met.methods(IM)})
+            handed = {}
+            if ba_hooks:
+                o = _O("store", IM, met, **{docs_attr: list(old)})
+                for h in ba_hooks:
+                    o.on_read[h] = lambda h=h, o=o: _T("attr", o, h)
+                handed = {h: [e.args + list(e.kwargs.values()) for e in restore(o).effects if e.path == f"store.{h}"] for h in ba_hooks}
             else:
-                addf = met.methods(IM)[addname]
+                chk.unknown("O7.7", "the hook through which bulk_add hands the restored documents to the store: none found", ba)
+            per_record = [addname] if addname is not None else []
+            for h in ba_hooks:
+                calls = handed.get(h) or []
+                if calls and all(len(a) == 1 and any(a[0] is r for r in restored) for a in calls):
+                    per_record += [h] if h not in per_record else []
+                elif calls and all(len(a) == 1 and isinstance(a[0], (list, tuple)) and a[0] and all(any(x is r for r in restored) for x in a[0]) for a in calls):
+                    # a hook that takes the collection: it must add every element once, in order, to what is already stored
+                    hf = met.methods(IM)[h]
+                    o = _O("store", IM, met, **{docs_attr: list(old)})
+                    ds = _rep(2, "doc")
+                    it = _Interp([met])
+                    it.call(_Fn(hf, met, o), [list(ds)], {}, hf)
+                    _require_loops_modelled(it, [ds])
+                    got = o.f.get(docs_attr)
+                    ok = isinstance(got, list) and len(got) == 3 and got[0] is old[0] and got[1] is ds[0] and got[2] is ds[1]
+                    chk.ob("O7.7", "the collection hook of bulk_add appends every document", ok, hf, "" if ok else f"store holds {got!r} after adding two documents to one"[:160])
+                elif h != addname:
+                    chk.unknown("O7.7", f"what bulk_add hands to the store hook `{h}` is not recognised: {calls!r}"[:200], ba)
+            if addname is None:
+                chk.unknown("O7.7", f"the per-record hook `_put_metric` calls on the store: found {pm_hooks}", pm)
+            for h in per_record:
+                addf = met.methods(IM)[h]
                 o = _O("store", IM, met, **{docs_attr: list(old)})
                 d = _O("doc")
                 _Interp([met]).call(_Fn(addf, met, o), [d], {}, addf)
                 got = o.f.get(docs_attr)
                 ok = isinstance(got, list) and len(got) == 2 and got[0] is old[0] and got[1] is d
-                chk.ob("O7.7", "_add appends the document", ok, addf, "" if ok else f"store holds {got!r} after adding one document to one")
+                what = "one document to one"
+                if ok:  # a record that equals the one stored last is a record of its own (two requests may yield equal documents)
+                    what = "an equal document a second time"
+                    _Interp([met]).call(_Fn(addf, met, o), [d], {}, addf)
+                    got = o.f.get(docs_attr)
+                    ok = isinstance(got, list) and len(got) == 3 and got[0] is old[0] and got[1] is d and got[2] is d
+                chk.ob("O7.7", "_add appends the document", ok, addf, "" if ok else f"store holds {got!r} after adding {what}")
         except (_Undecided, _Need) as x:
             chk.unknown("O7.7", f"MetricsStore.bulk_add / the store's add hook not evaluated: {x}", ba)
-    # _put_metric reaches the add hook on every normal path
-    pm = met.methods(MS).get("_put_metric")
-    if pm is None:
-        raise AnchorMissing("MetricsStore._put_metric")
-    px = _Expand(met, MS, keep=(addname or "_add",)).function(pm)
-    gp = cfg_of(px)
-    addc = [gp.node_of(n) for n in walk_body(px) if isinstance(n, ast.Call) and is_self_attr(n.func, addname or "_add")]
-    if not addc:
-        chk.unknown("O7.7", f"no call of the store's add hook `{addname or '_add'}` in MetricsStore._put_metric", pm)
+    # _put_metric reaches the per-record hook on every normal path
+    if addname is None:
+        if docs_attr is None:
+            chk.unknown("O7.7", f"the per-record hook `_put_metric` calls on the store: found {pm_hooks}", pm)
     else:
-        chk.ob("O7.7", "_put_metric stores the record on every normal path", gp.must_pass(gp.entry, addc), pm, "")
+        gp = cfg_of(px)
+        chk.ob("O7.7", "_put_metric stores the record on every normal path", gp.must_pass(gp.entry, [gp.node_of(n) for n in pm_calls]), pm, "")
     return docs_attr
 
 
@@ -2605,15 +2663,19 @@ class _EsFlush:
     def __init__(self, met):
         self.EM = EM = met.cls("EsMetricsStore")
         emm = met.methods(EM)
-        self.add, self.fl = emm.get("_add"), emm.get("flush")
+        hook = _record_hook(met) or "_add"  # the per-record hook by role (what `_put_metric` hands the record to)
+        self.add, self.fl = emm.get(hook), emm.get("flush")
         if self.fl is None or self.add is None:
-            raise AnchorMissing("EsMetricsStore.flush / EsMetricsStore._add")
+            raise AnchorMissing(f"EsMetricsStore.flush / EsMetricsStore.{hook}")
         d = _O("doc")
-        it = _Interp([met])
-        o = _O("store", EM, met)
-        it.call(_Fn(self.add, met, o), [d], {}, self.add)
-        bufs = sorted({e.path.split(".")[1] for e in it.effects if e.path.startswith("store.") and e.path.count(".") == 2 and any(a is d for a in e.args)}
-                      | {a for a, v in o.f.items() if _mentions(v, d)})
+
+        def make(oracle):  # (a hook that tests the not yet known buffer first is followed on both arms)
+            it = _Interp([met], oracle)
+            o = _O("store", EM, met)
+            return (it, o), lambda: it.call(_Fn(self.add, met, o), [d], {}, self.add)
+
+        bufs = sorted({a for (it, o), _ in _explore(make) for a in {e.path.split(".")[1] for e in it.effects if e.path.startswith("store.") and e.path.count(".") == 2 and any(x is d for x in e.args)}
+                       | {a for a, v in o.f.items() if _mentions(v, d)}})
         if len(bufs) != 1:
             raise AnchorMissing(f"the buffer attribute of EsMetricsStore (what `_add` appends the record to): found {bufs}")
         self.buf = bufs[0]
@@ -2650,7 +2712,13 @@ def _o710(chk, met):
         _Interp([met]).call(_Fn(es.add, met, o), [d], {}, es.add)
         got = o.f.get(buf)
         ok = isinstance(got, list) and len(got) == 2 and got[0] is old[0] and got[1] is d
-        chk.ob("O7.10", "_add appends the record to the buffer", ok, es.add, "" if ok else f"buffer holds {got!r} after adding one record to one")
+        what = "one record to one"
+        if ok:  # a record that equals the one buffered last is a record of its own
+            what = "an equal record a second time"
+            _Interp([met]).call(_Fn(es.add, met, o), [d], {}, es.add)
+            got = o.f.get(buf)
+            ok = isinstance(got, list) and len(got) == 3 and got[0] is old[0] and got[1] is d and got[2] is d
+        chk.ob("O7.10", "_add appends the record to the buffer", ok, es.add, "" if ok else f"buffer holds {got!r} after adding {what}")
         content = _rep(2, "buffered")
         bad_send, bad_empty = [], []
         nodes = []
@@ -3390,4 +3458,44 @@ VARIANTS += [
       "        clear_store = True\n        notify = self.driver_actor.on_task_finished\n        m = self.metrics_store.to_externalizable(clear=clear_store)\n        notify(m, waiting_period)"),
     V("R3 aliased hand-over whose clear flag is False", "break", _D, _V_HANDOVER,
       "        clear_store = False\n        notify = self.driver_actor.on_task_finished\n        m = self.metrics_store.to_externalizable(clear=clear_store)\n        notify(m, waiting_period)", "O7.6"),
+]
+
+# texts shared by the round-4 variants (the store hooks by role: benign/C07-b11)
+_V_BULK_LOOP = "            for doc in pickle.loads(zlib.decompress(memento)):\n                self._add(doc)"
+_V_BULK_ALL = "            self._add_all(pickle.loads(zlib.decompress(memento)))"
+_V_MS_TE = "    def to_externalizable(self, clear=False):\n        raise NotImplementedError(\"abstract method\")\n"
+_V_MS_ALL = _V_MS_TE + "\n    def _add_all(self, docs):\n        for doc in docs:\n            self._add(doc)\n"
+_V_IM_ADD = "    def _add(self, doc):\n        self.docs.append(doc)\n"
+_V_IM_ALL = _V_IM_ADD + "\n    def _add_all(self, docs):\n        self.docs.extend(docs)\n"
+_V_ES_ADD = "    def _add(self, doc):\n        self._docs.append(doc)\n"
+_V_ES_ALL = _V_ES_ADD + "\n    def _add_all(self, docs):\n        self._docs.extend(docs)\n"
+
+
+def _v_add_all(kind, name, rule=None, ms=_V_MS_ALL, im=_V_IM_ALL, es=_V_ES_ALL):
+    return [V(name, kind, _M, _V_BULK_LOOP, _V_BULK_ALL, rule), V("", kind, _M, _V_MS_TE, ms), V("", kind, _M, _V_IM_ADD, im), V("", kind, _M, _V_ES_ADD, es)]
+
+
+VARIANTS += [
+    # ---- hardening round 4: the per-record hook is what `_put_metric` hands the record to, bulk_add may use a collection hook of its own --------------------------------
+    _v_add_all("keep", "R4 bulk_add through a collection hook `_add_all`: base = loop over _add, both stores override it with one extend"),
+    _v_add_all("keep", "R4 collection hook only in the base class (loop over the per-record hook), no store overrides it", im=_V_IM_ADD, es=_V_ES_ADD),
+    _v_add_all("keep", "R4 collection hook of the in-memory store spelled += instead of extend", im=_V_IM_ALL.replace("self.docs.extend(docs)", "self.docs += docs")),
+    V("R4 per-record hook renamed consistently", "keep", _M, r"\b_add\b", "_append_doc", count=6, regex=True),
+    [V("R4 _put_metric hands the record to a base-class helper that calls the hook", "keep", _M, "            doc[\"track-params\"] = self._track_params\n        self._add(doc)\n\n    def put_doc",
+       "            doc[\"track-params\"] = self._track_params\n        self._store_record(doc)\n\n    def put_doc"),
+     V("", "keep", _M, _V_MS_TE, _V_MS_TE + "\n    def _store_record(self, record):\n        self._add(record)\n")],
+    _v_add_all("break", "R4 collection hook of the in-memory store replaces what was stored", "O7.7", im=_V_IM_ALL.replace("self.docs.extend(docs)", "self.docs = list(docs)")),
+    _v_add_all("break", "R4 collection hook of the in-memory store skips the first document", "O7.7", im=_V_IM_ALL.replace("self.docs.extend(docs)", "self.docs.extend(docs[1:])")),
+    _v_add_all("break", "R4 collection hook appends the collection as ONE document", "O7.7", im=_V_IM_ALL.replace("self.docs.extend(docs)", "self.docs.append(docs)")),
+    _v_add_all("break", "R4 base-class collection hook (not overridden) stops after the first document", "O7.7", im=_V_IM_ADD, es=_V_ES_ADD,
+               ms=_V_MS_ALL.replace("            self._add(doc)\n", "            self._add(doc)\n            break\n")),
+    _v_add_all("break", "R4 collection-hook shape, the per-record hook of the in-memory store replaces the list (bulk path unaffected)", "O7.7",
+               im=_V_IM_ALL.replace("        self.docs.append(doc)\n", "        self.docs = [doc]\n")),
+    V("R4 per-record hook of the in-memory store drops a record equal to the last one", "break", _M, _V_IM_ADD,
+      "    def _add(self, doc):\n        if not self.docs or self.docs[-1] != doc:\n            self.docs.append(doc)\n", "O7.7"),
+    V("R4 per-record hook of the ES store buffers a record only if it is not buffered yet", "break", _M, _V_ES_ADD,
+      "    def _add(self, doc):\n        if doc not in self._docs:\n            self._docs.append(doc)\n", "O7.10"),
+    [V("R4 record helper of _put_metric stores only records that carry a task", "break", _M, "            doc[\"track-params\"] = self._track_params\n        self._add(doc)\n\n    def put_doc",
+       "            doc[\"track-params\"] = self._track_params\n        self._store_record(doc)\n\n    def put_doc", "O7.7"),
+     V("", "break", _M, _V_MS_TE, _V_MS_TE + "\n    def _store_record(self, record):\n        if \"task\" in record:\n            self._add(record)\n")],
 ]
